@@ -694,6 +694,7 @@ class FPNum:
         elif (a.m < b.m): abs_cmp = -1
         else: raise Exception()
             
+        if (a.m == 0 and b.m == 0): return 0 # +0 and -0 are equal
         if (a.s == 1 and b.s == 1): return abs_cmp
         elif (a.s == -1 and b.s == -1): return -abs_cmp
         elif (a.s == -1 and b.s == 1): return -1
